@@ -3,7 +3,7 @@
    C03 (safety: what a writer receives is always a prefix of the object, complete means exact)
    and the receiver half of C01. *)
 From FluteV Require Import Model.Partition Spec.C07Spec Proofs.PartitionProofs Model.ObjRecv
-  Spec.RecvSpec Spec.SessionSpec Proofs.SessionProofs.
+  Spec.RecvSpec Spec.SessionSpec Proofs.SessionProofs Proofs.D48Step.
 From Coq Require Import Lia FinFun.
 Open Scope N_scope.
 
@@ -1066,7 +1066,8 @@ Section Delivery.
     unfold init_partition at 1. unfold nb_block at 1. prj.
     change (0 <? 0 + N.of_nat (length (@nil bdec))) with false. cbv iota beta. fold b e. rewrite Hpart. cbv iota beta.
     unfold init_writer. prj. change (ncalls ctx0 toi) with 0%nat. rewrite Hbld. cbv iota beta zeta.
-    rewrite <- Hw, Hopen. cbn [negb]. destruct (N.eqb_spec L 0) as [G|_]; [lia|]. prj.
+    rewrite <- Hw, Hopen. cbn [negb]. destruct (N.eqb_spec L 0) as [G|HL0]; [lia|]. prj.
+    d48_skip HL0.
     match goal with |- context [push_from_cache E ?x ?y] => set (o3 := x); set (c3 := y) end.
     pose proof (PF n_pos) as Hn.
     set (m := N.to_nat (N.min n 2048)) in *.
@@ -1436,10 +1437,12 @@ Example block_window_refuted :
   /\ fst (summary 7 (receive env_ok 1 ex3_files None 7 1000000 (tl ex3_pkts))) = Completed.
 Proof. vm_compute. repeat split. Qed.
 
-(* the empty object (L = 0): nothing completes it until some packet of the object arrives; the first packet
-   with a well-formed payload id completes it with no write, also when it carries the close-object flag *)
+(* the empty object (L = 0), since the D48 repair: it is completed with no write by the attach itself as soon as
+   it has its OTI and its writer (the receiver exists only because a packet of the object has arrived; before the
+   repair the attach left it Receiving with log [CallOpen true] until a further packet came); packets that follow,
+   also with the close-object flag, change nothing *)
 Definition ex0_files : list fdtfile := [mk_ff 7 CNull (Some ex_oti) 0 None None false].
 Example empty_object_behaviour :
-  summary 7 (receive env_ok 1 ex0_files None 7 1000 []) = (Receiving, [CallOpen true])
+  summary 7 (receive env_ok 1 ex0_files None 7 1000 []) = (Completed, [CallOpen true; CallComplete])
   /\ summary 7 (receive env_ok 1 ex0_files None 7 1000 [src_pkt 7 0 0 true []]) = (Completed, [CallOpen true; CallComplete]).
 Proof. vm_compute. repeat split. Qed.
